@@ -3,6 +3,7 @@ import PV.Driver.SB
 import PV.Driver.Tree
 import PV.Driver.Sleep
 import PV.Driver.SockAddr
+import PV.Driver.Ini
 def main (args : List String) : IO UInt32 := do
   match args with
   | ["ht"] => PV.Driver.HT.run; return 0
@@ -10,4 +11,5 @@ def main (args : List String) : IO UInt32 := do
   | ["tree"] => PV.Driver.Tree.run; return 0
   | ["sleep"] => PV.Driver.Sleep.run; return 0
   | ["sockaddr"] => PV.Driver.SockAddr.run; return 0
+  | ["ini"] => PV.Driver.Ini.run; return 0
   | _ => IO.eprintln "usage: pvdriver <family>  (ops on stdin)"; return 2
